@@ -234,7 +234,7 @@ func newTrace(sc *Scenario, r *runner) *trace {
 
 func (t *trace) opLine(s *Step) string {
 	switch s.Op {
-	case "store":
+	case "store", "rejected":
 		return "store " + t.ids.blockArgs(t.sc.U, s.B)
 	case "l1head":
 		return fmt.Sprintf("l1head %d", s.L1.BlockNumber)
@@ -255,6 +255,9 @@ func (t *trace) step(s *Step, err error, n *Node, store db.KeyValueStore) {
 
 func (t *trace) stepQ(s *Step, err error, n *Node, store db.KeyValueStore, quiet bool) {
 	rec := stepRec{line: t.opLine(s), fault: "-", out: errClass(err), quiet: quiet}
+	if s.Op == "rejected" && err == nil {
+		rec.out = errClass(n.rejectErr)
+	}
 	if n.fdb.failAt > t.pre && n.fdb.failAt <= n.fdb.Commits() && rec.out == "err:io" {
 		rec.fault = fmt.Sprintf("f%d", n.fdb.failAt-t.pre-1)
 		if s.Op == "prune" {
